@@ -16,10 +16,10 @@ REC_NOTE = ("Trusted: TLC + CommunityModules Json; the harness only projects inp
 REC_TXT = "Record validation against the explicit TLA+ specification %s: the harness calls the real %s on generated / enumerated inputs and TLC evaluates %s on every record."
 
 CHECKS = {
-    "C01": ("lifecycle", LIFE_TXT % "C01_Gating at every Launch event (dependency condition met before the launch, for every scheduled dependency, all five condition types; ground truth exit codes)", LIFE_NOTE),
+    "C01": ("lifecycle", LIFE_TXT % "C01_Gating at every Launch event (dependency condition met before the launch, for every scheduled dependency, all five condition types; ground truth exit codes) and C01_ResolvedInstanceMet at every DepSatisfied event (a wait for completion ends only after the Done of the very instance that was looked up, exit 0 for completed_successfully; family regate restarts a chain from its root)", LIFE_NOTE),
     "C02": ("lifecycle", LIFE_TXT % "C02_* (relaunch only if the policy allows, never after an acknowledged stop / shutdown request / returned shutdown, must relaunch when the policy says so, back-off value and lower bound on the measured gap, restart counter) at every Launch / Done / Backoff event", LIFE_NOTE),
     "C03": ("lifecycle", LIFE_TXT % "C03_* (nothing alive or reported running at ShutdownReturn, no launch afterwards of an instance that existed before, Run() returns) on executions where the shutdown is fired at every gate of the life cycle", LIFE_NOTE),
-    "C04": ("lifecycle", LIFE_TXT % "C04_* (Run() not early, never stuck, exit code is that of a non-victim trigger) at RunReturn / by the quiescence watchdog", LIFE_NOTE),
+    "C04": ("lifecycle", LIFE_TXT % "C04_* (Run() not early, never stuck, exit code is that of a non-victim trigger; C04_ExitCodeFromTrigger: the code is set (ProjExit event) only on behalf of a process that ended as a trigger before any shutdown had begun) at RunReturn / ProjExit / by the quiescence watchdog", LIFE_NOTE),
     "C05": ("lifecycle", LIFE_TXT % "C05_* (no launch with a terminally unsatisfied dependency, Skipped with non-zero exit at rest, exit_on_skipped) with a dedicated family enumerating the failure modes of a dependency", LIFE_NOTE),
     "C08": ("lifecycle", LIFE_TXT % "C08_* (at most one alive command per replica as a state invariant; start/restart results and spawn counts; no relaunch after an acknowledged stop; no vanished instance) on sequential and overlapping API histories", LIFE_NOTE),
     "C09": ("lifecycle", LIFE_TXT % "C09_* (legal per-instance transitions at every State event; reaped code; interval-observed snapshots; at rest: no transient state, terminal means dead, failed means non-zero, exit code truth)", LIFE_NOTE),
@@ -42,7 +42,7 @@ CHECKS = {
             "(PCLifecycle_manualconc.cfg, 65 M states, run by C08's thorough tier) satisfies every life-cycle invariant.",
             REC_NOTE + " The data-race half of the property (races without a crash or deadlock consequence) is NOT decided: the technique observes executions, "
             "not memory accesses (DESIGN.md section 7). Schedules are sampled (250 ms of free-running goroutines per batch), not enumerated."),
-    "C18": ("records", "Operation histories of the real pclog.ProcessLogBuffer (exhaustive (offset, limit) grids on small logs and around the trim boundary; a writer concurrent with subscribers; stalled follower) validated by TLC against PCLogBuffer / PCLogBufferTrace (C18_Recent, C18_RangeWindow, C18_FollowerNoGapNoDup, C18_StalledFollowerDoesNotBlock); the design model is explored exhaustively for small constants.", REC_NOTE),
+    "C18": ("records", "Operation histories of the real pclog.ProcessLogBuffer (exhaustive (offset, limit) grids on small logs and around the trim boundary; a writer concurrent with subscribers; stalled follower) validated by TLC against PCLogBuffer / PCLogBufferTrace (C18_Recent, C18_RangeWindow, C18_FollowerNoGapNoDup, C18_StalledFollowerDoesNotBlock); the design model is explored exhaustively for small constants. Second binding direction (model -> code): TLC -simulate behaviours of PCLogBuffer with the implementation's slack (PCLogBuffer_replay.cfg) are stepped through the real buffer and the buffer content, write count and every follower's received lines are compared with the model state after every externally visible step.", REC_NOTE),
 }
 try:
     import mkmanifest_more
